@@ -503,7 +503,7 @@ def gen_wire_model(rng, modular=None, degenerate=0.0, p_this=0.25, max_types=4, 
         modular = rng.random() < 0.4
     tnames = names.distinct(rng.randint(1, max_types))
     modules = modules or ["core", "wiki", "a"]
-    files = files or ["core.fga", "z.fga", "a/b.fga", ""]
+    files = files or ["core.fga", "z.fga", "a/b.fga", "", "teams #1/core.fga"]
     cnames = [c for c in COND_IDS[:4] + COND_IDS[7:] if rng.random() < 0.4]
     types = []
     for tn in tnames:
